@@ -6,6 +6,7 @@ import (
 	"bytes"
 	"context"
 	"fmt"
+	"os"
 	"sort"
 	"strings"
 	"sync"
@@ -63,7 +64,7 @@ func statEq(got, want *types.Stat) string {
 	if got.Devmajor != want.Devmajor || got.Devminor != want.Devminor {
 		d = append(d, "device numbers")
 	}
-	if want.Mode&uint32(0xfff00000) == 0 && want.Linkname == "" && got.Size != want.Size {
+	if want.Mode&uint32(os.ModeType) == 0 && want.Linkname == "" && got.Size != want.Size {
 		d = append(d, fmt.Sprintf("size %d want %d", got.Size, want.Size))
 	}
 	if len(got.Xattrs) != len(want.Xattrs) {
